@@ -133,6 +133,14 @@ func c20Cases(c *Ctx, n int) []jsCase {
 				} // else: the code of the wrapped counter 2^64-d, which no window below 0 contains
 			}
 			code := ref.HOTP(key, x, d, a)
+			if rng.Intn(4) == 0 {
+				// any other string (edits, sign/space instead of a leading zero, Unicode digits, bytes sharing bits with
+				// the right digit …): the oracle is window membership, which equals the native verdict
+				code = gen.Pick(rng, gen.HostileCodes(rng, ref.HOTP(key, ctr, d, a)))
+				if code == "" || !validUTF8(code) {
+					code = "+" + ref.HOTP(key, ctr, d, a)[1:]
+				}
+			}
 			_, want := ref.HOTPWindow(key, ctr, skew, d, a)[code]
 			add(jsCase{Fn: "validateHOTP", Args: []jsArg{sArg(sec), sArg(code), nArg(float64(ctr)), sArg(ds), sArg(as), nArg(float64(skew))}, Want: fmt.Sprint(want), Note: fmt.Sprintf("genuine code at distance %+d, window %d", int64(x-ctr), skew)})
 		case 3:
@@ -158,6 +166,12 @@ func c20Cases(c *Ctx, n int) []jsCase {
 			step := ts / period
 			dist := int64(rng.Intn(int(2*skew+5))) - int64(skew) - 2
 			code := ref.HOTP(key, step+uint64(dist), d, a)
+			if rng.Intn(4) == 0 {
+				code = gen.Pick(rng, gen.HostileCodes(rng, ref.HOTP(key, step, d, a)))
+				if code == "" || !validUTF8(code) {
+					code = "+" + ref.HOTP(key, step, d, a)[1:]
+				}
+			}
 			_, want := ref.HOTPWindow(key, step, skew, d, a)[code]
 			add(jsCase{Fn: "validateTOTP", Args: []jsArg{sArg(sec), sArg(code), nArg(float64(ts)), sArg(ds), sArg(as), nArg(float64(skew)), nArg(float64(period))}, Want: fmt.Sprint(want), Note: fmt.Sprintf("genuine code at step distance %+d, skew %d", dist, skew)})
 		case 4:
